@@ -604,6 +604,16 @@ type Finding struct {
 	Detail string
 }
 
+var whereRank = map[string]int{"": 0, "top": 1, "group": 2, "true_branch": 3, "else_branch": 4}
+
+// worse returns the more nested of two position classes.
+func worse(a, b string) string {
+	if whereRank[b] > whereRank[a] {
+		return b
+	}
+	return a
+}
+
 func tokKind(tok string) string {
 	if strings.HasPrefix(tok, "unknown") {
 		return "unknown"
@@ -686,21 +696,22 @@ func (md *Model) Diff(actual []string) []Finding {
 			continue
 		}
 		if a < e {
-			where, sd := "?", "request"
+			where, sd := "", "request"
 			for i := range md.Recs {
 				if r := &md.Recs[i]; r.Tok == t && r.State == Live {
-					where = md.Tree.Where(r.Leaf)
+					where = worse(where, md.Tree.Where(r.Leaf))
 					if r.Side == SideRes {
 						sd = "response"
 					}
-					break
 				}
 			}
 			add("lost:"+where+":"+sd, fmt.Sprintf("unmet evaluation %s expected %d time(s), reported %d time(s)", t, e, a))
 			continue
 		}
-		// a > e: look the token up in what was ever evaluated
+		// a > e: look the token up in what was ever evaluated. Several verifiers of one kind yield the same
+		// token; the position class is then the most nested one among the candidates (else > true > group > top).
 		var api, erased, live *Rec
+		erasedWhere := ""
 		for i := range md.Recs {
 			r := &md.Recs[i]
 			if r.Tok != t {
@@ -711,6 +722,7 @@ func (md *Model) Diff(actual []string) []Finding {
 				api = r
 			case Erased:
 				erased = r
+				erasedWhere = worse(erasedWhere, md.Tree.Where(r.Leaf))
 			case Live:
 				live = r
 			}
@@ -725,7 +737,7 @@ func (md *Model) Diff(actual []string) []Finding {
 		case api != nil:
 			add("api_request_counted:"+tokKind(t), fmt.Sprintf("%s was evaluated on an API request and is reported", t))
 		case erased != nil:
-			add("stale_after_reset:"+md.Tree.Where(erased.Leaf)+":"+side(erased), fmt.Sprintf("%s was recorded before the last reset by verifier node %d (%s) and is still reported", t, erased.Leaf, md.Tree.Where(erased.Leaf)))
+			add("stale_after_reset:"+erasedWhere+":"+side(erased), fmt.Sprintf("%s was recorded before the last reset (by a verifier in position %s) and is still reported", t, erasedWhere))
 		case live != nil:
 			add("duplicated:"+tokKind(t), fmt.Sprintf("%s reported %d time(s), evaluated unmet %d time(s)", t, a, e))
 		default:
